@@ -168,9 +168,22 @@ func nnp(c *Case) {
 		emit(map[string]any{"ev": "done"})
 		return
 	}
+	var priorErr error
+	if nc.Prior == "same-without-nnp" {
+		// a history: the very same filter was loaded before, without asking for no_new_privs (a privileged caller may)
+		judging = false
+		pf := f
+		pf.NoNewPrivs = false
+		priorErr = seccomp.LoadFilter(pf)
+		judging = true
+		instMu.Lock()
+		installs = nil
+		instMu.Unlock()
+	}
 	tidBefore = syscall.Gettid()
 	err = seccomp.LoadFilter(f)
 	tidAfter = syscall.Gettid()
+	_ = priorErr
 	instMu.Lock()
 	ins := append([]installed(nil), installs...)
 	instMu.Unlock()
@@ -179,7 +192,7 @@ func nnp(c *Case) {
 		_, e := doProbe(p)
 		probes = append(probes, e)
 	}
-	emit(map[string]any{"ev": "loaded", "ok": err == nil, "err": errString(err), "tid_before": tidBefore, "tid_after": tidAfter,
+	emit(map[string]any{"ev": "loaded", "ok": err == nil, "err": errString(err), "tid_before": tidBefore, "tid_after": tidAfter, "prior": nc.Prior, "prior_err": errString(priorErr),
 		"hook_calls": hookCalls, "hook_tid_in": hookTidIn, "hook_tid_out": hookTidOut, "migrated": migrated, "attempts": attempts,
 		"installs": ins, "after": snapshot(), "self": statusFields(syscall.Gettid()), "probe_errnos": probes})
 	emit(map[string]any{"ev": "done"})
